@@ -613,6 +613,54 @@ def check_layering(ctx, rid):
             g += 1
             r.check(x[3] == own, 'getter|%s' % name.replace(S, ''), f.file, '%s returns field %s' % (name.replace(S, ''), x[3]))
     r.floor(g, 10, 'namesake getters')
+    # delegating namesakes: a small function named N that forwards to exactly one h2 function forwards to the one named N
+    # when its target type has one (Streams::max_send_streams -> Counts::max_send_streams, not its sibling max_recv_streams)
+    H2 = ('proto::', 'frame::', 'codec::', 'hpack::', 'client::', 'server::', 'share::')
+    by_type = {}
+    for nm in F.fns:
+        if 'closure' in nm or '::tests::' in nm:
+            continue
+        owner, _, short_ = nm.rpartition('::')
+        by_type.setdefault(owner, set()).add(short_)
+    dn = 0
+    for name, f in sorted(F.fns.items()):
+        if not name.startswith(H2) or 'closure' in name or '::tests::' in name or len([b for b in f.blocks if not b['cu']]) > 12:
+            continue
+        own = name.rsplit('::', 1)[-1]
+        calls = [t['fn'] for bi, t in f.calls() if t['fn'].startswith(H2) and not (t.get('exp') and 'trac' in t['exp'])]
+        calls = [c for c in calls if c.rsplit('::', 1)[-1] not in ('as_dyn', 'deref', 'deref_mut', 'clone', 'resolve', 'lock')]
+        if len(calls) != 1:
+            continue
+        target = calls[0]
+        towner, _, tshort = target.rpartition('::')
+        def mirror(x):
+            for a_, b_ in (('send', 'recv'), ('local', 'remote'), ('client', 'server')):
+                if a_ in x:
+                    return x.replace(a_, b_)
+                if b_ in x:
+                    return x.replace(b_, a_)
+            return None
+        if tshort != own and tshort == mirror(own) and own in by_type.get(towner, ()):
+            r.bad('delegate|%s' % name, f.file, '%s forwards to %s (the mirror-image sibling) although %s::%s exists' % (name, target, towner.split('::')[-1], own))
+        elif tshort == own:
+            dn += 1
+    r.floor(dn, 40, 'delegating namesakes')
+    # Stream's own send-side helpers use send_flow only
+    for fn in ('assign_capacity', 'send_data', 'capacity', 'notify_capacity'):
+        f = F.fn(ST + '::' + fn)
+        if not f:
+            continue
+        hit = False
+        for bi, si, pl, rv, ln in f.stmts():
+            if any(o == ST and fl == 'recv_flow' for (o, fl) in core.place_fields(pl)) or (rv[0] not in ('setdiscr', 'other') and any(x[0] == 'field' and x[2] == ST and x[3] == 'recv_flow' for x in walk(f.expr_of_rvalue(rv)))):
+                hit = True
+        for bi, t in f.calls():
+            if t.get('exp') and any(k in t['exp'] for k in ('trace', 'debug', 'event', 'span')):
+                continue
+            for a in t['a']:
+                if any(x[0] == 'field' and x[2] == ST and x[3] == 'recv_flow' for x in walk(f.expr_of_op(a))):
+                    hit = True
+        r.check(not hit, 'layer|Stream::%s' % fn, f.file, 'Stream::%s works on send_flow only' % fn)
     for fn, field in (('notify_send', 'send_task'), ('notify_recv', 'recv_task'), ('notify_push', 'push_task'), ('wait_send', 'send_task')):
         f = r.fn(ST + '::' + fn)
         if not f:
